@@ -38,6 +38,20 @@ def zsig(e, depth=0):
             z = '[%s]' % m.group(1)
         if name in ('unwrap', 'expect', 'clone', 'deref'):
             return zsig(e[2][0], depth + 1) if e[2] else name
+        if name == 'naive_utc' and e[2]:
+            # `Utc.from_utc_datetime(&n).naive_utc()` is n: the round trip through Utc is an identity and may be spelled or not
+            a0 = strip(e[2][0])
+            if a0[0] == 'call' and short(a0[1]).rsplit('::', 1)[-1] == 'from_utc_datetime' and len(a0[2]) >= 2:
+                t0 = a0[3] if isinstance(a0[3], dict) else None
+                i0 = (t0.get('callee') or {}).get('inst', '') if t0 else ''
+                if re.match(r'^<(?:chrono::)?(?:offset::)?(?:\w+::)*Utc\b', i0 or ''):
+                    return zsig(a0[2][-1], depth + 1)
+        if re.fullmatch(r'config::SmartCalcConfig::get_\w+', e[1]):
+            # a configuration accessor (get_time_offset): what it returns
+            from ..facts import inline_calls, CURRENT
+            e2 = inline_calls(CURRENT, e, depth=1)
+            if e2 is not e and not (e2[0] == 'call' and e2[1] == e[1]):
+                return zsig(e2, depth + 1)
         args = [zsig(a, depth + 1) for a in e[2]]
         args = [a for a in args if a not in ('', '_')]
         return '%s%s(%s)' % (name, z, ', '.join(args))
@@ -79,12 +93,13 @@ def z1_protocol(ctx):
     if len(toks) != 1:
         raise AnchorLost('time_regex_parser: expected one TokenType::Time construction, found %d' % len(toks))
     sg = zsig(b.expr(toks[0]['ops'][0]))
-    m = re.fullmatch(r'naive_utc\(from_utc_datetime\[Utc\]\((?:.*?, )?naive_utc\(and_hms\(ymd\[FixedOffset\]\(east\(\((?:TimeOffset\{config\.timezone, config\.timezone_offset\}\.offset|config\.timezone_offset) Mul 60\)\), .*\), (.*)\)\)\)\)', sg)
+    m = re.fullmatch(r'naive_utc\(and_hms\(ymd\[FixedOffset\]\(east\(\((?:TimeOffset\{config\.timezone, config\.timezone_offset\}\.offset|config\.timezone_offset) Mul 60\)\), .*\), (.*)\)\)', sg)
     if m:
         ctx.ok('Z1', 'time literal: instant = naive_utc of the wall time anchored in east(default offset * 60)', 'chain', site=toks[0]['loc'])
     else:
         ctx.finding('Z1', 'time_regex_parser/chain', 'a time literal stores %s; expected naive_utc(east(default*60).ymd(today).and_hms(h, m, s))' % sg[:260], site=toks[0]['loc'])
-    off = render(b.expr(toks[0]['ops'][1]))
+    from ..facts import inline_calls
+    off = render(inline_calls(ctx.facts, b.expr(toks[0]['ops'][1]), depth=1, skip=r'^(?!config::SmartCalcConfig::get_)'))
     if off == 'types::TimeOffset::TimeOffset{config.timezone, config.timezone_offset}':
         ctx.ok('Z1', 'time literal carries the configured default zone', 'wiring', site=toks[0]['loc'])
     else:
@@ -104,7 +119,7 @@ def z1_protocol(ctx):
     want = r'naive_utc\(from_utc_datetime\[Utc\]\((?:[^,]*, )?naive_utc\(from_local_datetime\[FixedOffset\]\(%s, (?:%s|%s)\)\)\)\)' % (tgt, via_local, wall)
     # `Utc.from_utc_datetime(&x.naive_utc()).naive_utc()` is `x.naive_utc()`: with or without that identity round trip
     want_short = r'naive_utc\(from_local_datetime\[FixedOffset\]\(%s, (?:%s|%s)\)\)' % (tgt, via_local, wall)
-    if re.fullmatch(want, sg) or re.fullmatch(want_short, sg):
+    if re.fullmatch(want, sg) or re.fullmatch(want_short, sg):      # (the Utc round trip is elided by zsig: want_short is what matches)
         ctx.ok('Z1', 'time + zone: wall time read in the current zone, anchored in east(target*60), stored as UTC', 'chain', site=b.loc)
     else:
         ctx.finding('Z1', 'time_with_timezone/chain', "'H:MM ZONE' stores %s; expected naive_utc(east(target*60).from_local_datetime(naive_local(east(current*60).from_utc_datetime(time))))" % sg[:300], site=b.loc)
